@@ -316,3 +316,9 @@ def fresh_predicate(name):
     v = _fresh(name, None)
     table = v.get("__pred__", []) if isinstance(v, dict) else []
     return lambda j: bool(table[j]) if 0 <= j < len(table) else False
+
+
+def suspension_point(what="await"):
+    EVENTS.append(("suspend", what))
+    if _SUSPEND_HOOK[0] is not None:
+        _SUSPEND_HOOK[0](what)
